@@ -97,6 +97,13 @@ Proof.
     split; lia.
 Qed.
 
+Lemma off_of_0 : forall b ch, 1 <= ch -> off_of b ch 0 = 0.
+Proof.
+  intros b ch Hch. unfold off_of. destruct (_ <? _) eqn:E; [lia|].
+  destruct (N.eq_dec (blob_len b) 0) as [|Hne]; auto. exfalso.
+  assert (0 < nchunks (blob_len b) ch) by (apply ceil_lt; auto; lia). lia.
+Qed.
+
 Definition trans_only (s s' : S) (x : nid) : Prop :=
   exists tr, s' = set_trans tr s /\ aget x tr = None /\
              (forall y, y <> x -> aget y tr = aget y (trans (sr (nd s)))) /\ asorted tr.
@@ -147,9 +154,8 @@ Proof.
     destruct IH as [IH1 IH2]. split.
     + rewrite IH1. reflexivity.
     + destruct IH2 as (tr & E1 & E2 & E3 & E4). exists tr. repeat split; auto.
-      * rewrite E1. subst s1. apply set_trans_set_trans.
-      * intros y Hy. rewrite (E3 y Hy). subst s1. unfold set_trans, upd. cbn.
-        apply aget_aset_other. auto.
+      intros y Hy. rewrite (E3 y Hy). subst s1. unfold set_trans, upd. cbn.
+      apply aget_aset_other. auto.
 Qed.
 
 Lemma nseq_map_piece : forall b ch r i, 1 <= ch ->
@@ -172,7 +178,7 @@ Lemma sender_transfer : forall e x s b,
 Proof.
   intros e x s b Hch Hp Hs Hst Hx fuel Hf.
   assert (Hc : cursor s x = Some (b, off_of b (chunk (cf e)) 0)).
-  { unfold cursor. rewrite Hx, Hst. unfold off_of. destruct (_ <? _); f_equal; f_equal; lia. }
+  { unfold cursor. rewrite Hx, Hst, off_of_0; auto. }
   destruct (sender_run_gen (N.to_nat (nchunks (blob_len b) (chunk (cf e)))) e x s b 0 Hch Hp Hs
               ltac:(lia) ltac:(lia) Hc fuel Hf) as [H1 H2].
   split; auto. rewrite H1. unfold transfer, final_piece. rewrite nseq_map_piece; auto.
@@ -233,27 +239,41 @@ Proof.
     unfold pieces_of. cbn [flat_map piece_of]. rewrite <- app_assoc. reflexivity.
 Qed.
 
+Lemma recv_run_app : forall (l1 l2 : list snap_part) s, recv_run (l1 ++ l2) s =
+  let (sa, da) := recv_run l1 s in let (sb, db) := recv_run l2 sa in (sb, da ++ db).
+Proof.
+  induction l1 as [|p l1 IH1]; intros l2 s0; cbn.
+  - destruct (recv_run l2 s0); reflexivity.
+  - destruct (set_transmission p s0) as [sx dx]. rewrite IH1.
+    destruct (recv_run l1 sx). destruct (recv_run l2 s). reflexivity.
+Qed.
+
+Lemma recv_last : forall b o l s acc, incoming (sr (nd s)) = Some acc ->
+  recv_run [SData b o l false true] s =
+  (set_sr ((sr (nd s)) <| stored := Some (assemble_snap (acc ++ [(b, o, l)])) |> <| incoming := None |>) s,
+   [true]).
+Proof. intros b o l s acc Hi. cbn [recv_run set_transmission]. rewrite Hi. reflexivity. Qed.
+
+Lemma pieces_of_run : forall b0 o0 l0 f0 x0 mids bl ol ll fl xl,
+  pieces_of (SData b0 o0 l0 f0 x0 :: mids ++ [SData bl ol ll fl xl]) =
+  (b0, o0, l0) :: pieces_of mids ++ [(bl, ol, ll)].
+Proof. intros. unfold pieces_of. cbn. rewrite flat_map_app. reflexivity. Qed.
+
 (* a complete run: a piece flagged first, middle pieces, a piece flagged last *)
-Lemma recv_complete : forall b0 o0 l0 mids bl ol ll fl s,
+Lemma recv_complete : forall b0 o0 l0 mids bl ol ll s,
   Forall is_mid mids ->
-  let ps := SData b0 o0 l0 true false :: mids ++ [SData bl ol ll fl true] in
+  let ps := SData b0 o0 l0 true false :: mids ++ [SData bl ol ll false true] in
   recv_run ps s =
   (set_sr ((sr (nd s)) <| stored := Some (assemble_snap (pieces_of ps)) |> <| incoming := None |>) s,
    false :: repeat false (length mids) ++ [true]).
 Proof.
-  intros b0 o0 l0 mids bl ol ll fl s Hm ps. subst ps.
+  intros b0 o0 l0 mids bl ol ll s Hm ps. subst ps. rewrite pieces_of_run.
   cbn [recv_run set_transmission].
   set (s1 := upd _ s).
-  assert (Hrun : forall (l1 l2 : list snap_part) s, recv_run (l1 ++ l2) s =
-            let (sa, da) := recv_run l1 s in let (sb, db) := recv_run l2 sa in (sb, da ++ db)).
-  { induction l1 as [|p l1 IH1]; intros l2 s0; cbn.
-    - destruct (recv_run l2 s0); reflexivity.
-    - destruct (set_transmission p s0) as [sx dx]. rewrite IH1.
-      destruct (recv_run l1 sx). destruct (recv_run l2 s2). reflexivity. }
-  rewrite Hrun. rewrite (recv_mids mids s1 [(b0, o0, l0)] Hm) by reflexivity.
-  cbn [recv_run set_transmission]. unfold set_sr, upd. cbn.
-  destruct fl; cbn; f_equal; f_equal; f_equal; f_equal; f_equal;
-    unfold pieces_of; cbn; rewrite flat_map_app; cbn; rewrite <- ?app_assoc; reflexivity.
+  rewrite recv_run_app. rewrite (recv_mids mids s1 [(b0, o0, l0)] Hm) by reflexivity.
+  set (s2 := set_sr _ s1).
+  rewrite (recv_last bl ol ll s2 ([(b0, o0, l0)] ++ pieces_of mids)) by reflexivity.
+  subst s2 s1. unfold set_sr, upd. cbn. rewrite <- app_assoc. reflexivity.
 Qed.
 
 (* the degenerate run of an empty blob: one piece flagged first and last *)
@@ -310,9 +330,8 @@ Qed.
 Lemma transfer_cover : forall b ch, 1 <= ch -> cover b 0 (pieces_of (transfer b ch)).
 Proof.
   intros b ch Hch. unfold transfer.
-  replace 0 with (off_of b ch 0) at 1.
-  - apply cover_pieces_gen; auto; lia.
-  - unfold off_of. destruct (_ <? _); lia.
+  rewrite <- (off_of_0 b ch Hch) at 1.
+  apply cover_pieces_gen; auto; lia.
 Qed.
 
 Lemma transfer_shape : forall b ch, 1 <= ch ->
